@@ -146,7 +146,22 @@ def check_tree(rel, env, seen=None):
     return f"unknown relation node {type(rel).__name__}"
 
 
-def noop_problems(rel):
+def noop_problems(rel, env=None):
+    if env is not None:
+        for name, eng in env.engines.items():
+            if eng == rel.engine:
+                continue
+            for b, t, r in ((True, True, False), (False, True, False), (True, False, True), (False, False, True), (True, False, False)):
+                kw = dict(preferred_engine=eng, backtrack=b, transfer=t, require_preferred_engine=r)
+                flags = f"preferred_engine={name}{' backtrack' if b else ''}{' transfer' if t else ''}{' require' if r else ''}"
+                try:
+                    if rel.with_only_columns(rel.columns, **kw) is not rel:
+                        return f"with_only_columns(all columns, {flags}) does not return the relation itself"
+                    if rel.sorted([], **kw) is not rel:
+                        return f"sorted([], {flags}) does not return the relation itself"
+                except Exception as e:  # noqa: BLE001
+                    return f"no-op call with {flags} raises {type(e).__name__}"
+            break
     if rel.with_only_columns(rel.columns) is not rel:
         return "with_only_columns(all columns) does not return the relation itself"
     if rel.sorted([]) is not rel:
@@ -173,7 +188,7 @@ def examine(prog, env):
     p = check_tree(rel, env)
     if p is None:
         try:
-            p = noop_problems(rel)
+            p = noop_problems(rel, env)
         except Exception as e:  # noqa: BLE001
             p = f"no-op call raises {type(e).__name__}: {e}"[:160]
     return "tree", p
